@@ -28,7 +28,10 @@ RULE = ("random systems: 1-3 species x 1-3 environments; density / chstt scalar 
         "per-node volume and units system) spaces with random environment maps; independent random units systems for "
         "species, network, space, nodes and system; every (species, cell) pair read through rotating naming forms; "
         "random writes; malformed positions / species; species edits + regeneration; every 5th system has a chstt dictionary with "
-        "an explicitly falsy entry (False / 0 / 0.0) for a used environment AND a truthy 'default' (also after an edit); sharing: "
+        "an explicitly falsy entry (False / 0 / 0.0) for a used environment AND a truthy 'default' (also after an edit); spaces built with OMITTED constructor arguments (every 4th system omits the grid cell "
+        "volume under a non-µm space unit; cell_env / w,h,d / boundary conditions / node volume and environment omitted at random; "
+        "constructor and rdspace_from_dict routes) against the documented defaults; copy() histories (b = a.copy(), network.copy(), space.copy(); "
+        "writes / species edits + regeneration on one, both re-inspected against their own expected content); sharing: "
         "systems built from another system's arrays / the caller's ndarrays (constructor and property setters), a setter on one "
         "must change one entry of that system and nothing else, edits of the caller's arrays must not leak.  Non-trivial: more than one cell or "
         "species and a non-zero density somewhere; distinct by the whole description")
@@ -160,7 +163,7 @@ def used_env(desc, rng):
     return desc["envs"][rng.choice(ok)] if ok else desc["envs"][0]
 
 
-def gen_desc(rng, malformed_env=False, force_falsy=False):
+def gen_desc(rng, malformed_env=False, force_falsy=False, omit_defaults=False):
     envs = rng.sample(["a", "b", "c", "cyt", "mem"], rng.randint(1, 3))
     nsys = rand_sys(rng)
     species = []
@@ -178,13 +181,39 @@ def gen_desc(rng, malformed_env=False, force_falsy=False):
         n = w * h * d
         space = {"kind": "grid", "w": w, "h": h, "d": d, "periodic": [rng.random() < 0.3 for _ in range(3)],
                  "cell_vol": gen_quantity(rng, spsys, VOL, allow_zero=False), "sys": spsys,
-                 "cell_env": [rng.randrange(len(envs)) for _ in range(n)]}
+                 "cell_env": [rng.randrange(len(envs)) for _ in range(n)], "omit": [], "route": rng.choice(["ctor", "dict"])}
+        # arguments left out: the DOCUMENTED defaults apply (written here from the documentation, not from the code):
+        # w = h = d = 1, every cell in environment 0, reflecting boundaries, cell volume 1 in the SPACE's own units system
+        if omit_defaults or rng.random() < 0.15:
+            if omit_defaults:
+                while spsys[0] == "µm":          # the default volume must be 1 cubic SPACE unit, whatever that unit is
+                    spsys = rand_sys(rng)
+                space["sys"] = spsys
+            space["omit"].append("cell_vol")
+            space["cell_vol"] = {"kind": "num", "v": 1.0, "si": si_factor(spsys, VOL)}
+        if rng.random() < 0.12:
+            space["omit"].append("cell_env")
+            space["cell_env"] = [0] * n
+        if rng.random() < 0.1:
+            space["omit"].append("bc")
+            space["periodic"] = [False, False, False]
+        if rng.random() < 0.08:
+            space["omit"].append("dims")
+            space["w"] = space["h"] = space["d"] = n = 1
+            space["cell_env"] = space["cell_env"][:1]
     else:
         n = rng.randint(1, 8)
         nodes = []
         for _ in range(n):
             ns = spsys if rng.random() < 0.5 else rand_sys(rng)
-            nodes.append({"vol": gen_quantity(rng, ns, VOL, allow_zero=False), "env": rng.randrange(len(envs)), "sys": ns})
+            nd = {"vol": gen_quantity(rng, ns, VOL, allow_zero=False), "env": rng.randrange(len(envs)), "sys": ns, "omit": []}
+            if rng.random() < (0.5 if omit_defaults else 0.1):     # documented node defaults: volume 1 (node's units), environment 0
+                nd["omit"].append("vol")
+                nd["vol"] = {"kind": "num", "v": 1.0, "si": si_factor(ns, VOL)}
+            if rng.random() < 0.1:
+                nd["omit"].append("env")
+                nd["env"] = 0
+            nodes.append(nd)
         space = {"kind": "graph", "nodes": nodes, "sys": spsys,
                  "edges": [[rng.randrange(n), rng.randrange(n)] for _ in range(rng.randint(0, n))]}
     if malformed_env:
@@ -229,12 +258,33 @@ def build_real(desc):
     sd = desc["space"]
     us = UnitsSystem(*sd["sys"])
     if sd["kind"] == "grid":
-        space = RDGridSpace(w=sd["w"], h=sd["h"], d=sd["d"], cell_env=list(sd["cell_env"]), cell_vol=q_real(sd["cell_vol"], VOL),
-                            boundary_conditions={a: ("periodical" if p else "reflecting") for a, p in zip("xyz", sd["periodic"])},
-                            units_system=us)
+        omit = sd.get("omit", [])
+        kw = {}
+        if "dims" not in omit:
+            kw.update(w=sd["w"], h=sd["h"], d=sd["d"])
+        if "cell_env" not in omit:
+            kw["cell_env"] = list(sd["cell_env"])
+        if "cell_vol" not in omit:
+            kw["cell_vol"] = q_real(sd["cell_vol"], VOL)
+        if "bc" not in omit:
+            kw["boundary_conditions"] = {a: ("periodical" if p else "reflecting") for a, p in zip("xyz", sd["periodic"])}
+        if sd.get("route") == "dict":
+            from strengths.rdspace import rdspace_from_dict
+            dd = {"type": "grid", "units": {"space": sd["sys"][0], "time": sd["sys"][1], "quantity": sd["sys"][2]}}
+            for k, v in kw.items():
+                dd[{"cell_vol": "cell_volume"}.get(k, k)] = v
+            space = rdspace_from_dict(dd)
+        else:
+            space = RDGridSpace(units_system=us, **kw)
     else:
-        nodes = [RDGraphSpaceNode(volume=q_real(nd["vol"], VOL), environment=nd["env"], units_system=UnitsSystem(*nd["sys"]))
-                 for nd in sd["nodes"]]
+        nodes = []
+        for nd in sd["nodes"]:
+            nkw = {}
+            if "vol" not in nd.get("omit", []):
+                nkw["volume"] = q_real(nd["vol"], VOL)
+            if "env" not in nd.get("omit", []):
+                nkw["environment"] = nd["env"]
+            nodes.append(RDGraphSpaceNode(units_system=UnitsSystem(*nd["sys"]), **nkw))
         edges = [RDGraphSpaceEdge(i=e[0], j=e[1], units_system=us) for e in sd["edges"]]
         space = RDGraphSpace(nodes=nodes, edges=edges, units_system=us)
     kw = {}
@@ -248,12 +298,27 @@ def build_real(desc):
 def model_op(desc, calls):
     sd = desc["space"]
     if sd["kind"] == "grid":
-        space = {"kind": "grid", "shape": {"w": sd["w"], "h": sd["h"], "d": sd["d"], "px": sd["periodic"][0], "py": sd["periodic"][1],
-                                           "pz": sd["periodic"][2]},
-                 "cell_vol": q_model(sd["cell_vol"], VOL), "cell_env": sd["cell_env"], "sys": sysj(sd["sys"])}
+        omit = sd.get("omit", [])
+        shape = {}
+        if "dims" not in omit:
+            shape.update(w=sd["w"], h=sd["h"], d=sd["d"])
+        if "bc" not in omit:
+            shape.update(px=sd["periodic"][0], py=sd["periodic"][1], pz=sd["periodic"][2])
+        space = {"kind": "grid", "shape": shape, "sys": sysj(sd["sys"])}
+        if "cell_vol" not in omit:
+            space["cell_vol"] = q_model(sd["cell_vol"], VOL)
+        if "cell_env" not in omit:
+            space["cell_env"] = sd["cell_env"]
     else:
-        space = {"kind": "graph", "sys": sysj(sd["sys"]),
-                 "nodes": [{"vol": q_model(nd["vol"], VOL), "env": nd["env"], "sys": sysj(nd["sys"])} for nd in sd["nodes"]]}
+        nodes = []
+        for nd in sd["nodes"]:
+            m = {"sys": sysj(nd["sys"])}
+            if "vol" not in nd.get("omit", []):
+                m["vol"] = q_model(nd["vol"], VOL)
+            if "env" not in nd.get("omit", []):
+                m["env"] = nd["env"]
+            nodes.append(m)
+        space = {"kind": "graph", "sys": sysj(sd["sys"]), "nodes": nodes}
     op = {"op": "rdsystem", "sys": sysj(desc["sys"]), "space": space,
           "net": {"sys": sysj(desc["net_sys"]), "envs": desc["envs"],
                   "species": [{"label": s["label"], "sys": sysj(s["sys"]), "density": envval_model(s["density"], DENS),
@@ -353,6 +418,12 @@ def run_system(ctx, desc, idx):
     nontriv = (n * nsp > 1)
     ctx.case(("sys", idx, sd["kind"], n, nsp), nontrivial=nontriv, sample={"op": "rdsystem", "space": sd["kind"], "cells": n, "species": nsp})
     ctx.count("space_" + sd["kind"])
+    if sd["kind"] == "grid":
+        ctx.count("grid_route_" + sd.get("route", "ctor"))
+        for k in sd.get("omit", []):
+            ctx.count("grid_omits_" + k + ("_non_default_space_unit" if k == "cell_vol" and sd["sys"][0] != "µm" else ""))
+    else:
+        ctx.count("graph_nodes_omitting_volume", sum(1 for nd in sd["nodes"] if "vol" in nd.get("omit", [])))
     ctx.count("species_%d" % nsp)
     ctx.count("envs_%d" % len(desc["envs"]))
     for s in desc["species"]:
@@ -725,6 +796,124 @@ def run_sharing(ctx, desc, idx):
                       dict(case, edited_index=j), impl={"changed": leaks}, expected="unchanged")
 
 
+def run_copies(ctx, desc, idx):
+    """copy() histories: b = a.copy() (and copies of the network / the space), then writes through set_chemostat / set_state /
+    species edits + set_default_state / set_default_chemostats on ONE object; after every write BOTH are re-inspected
+    against expectations computed independently (density x volume formula, the flags, the entries written so far)"""
+    import copy as _copy
+    from strengths import RDSystem, UnitsSystem
+    rng = ctx.rng
+    if "state_override" in desc or "chem_override" in desc:
+        return
+    nsp, n = len(desc["species"]), desc["n"]
+    if not all(0 <= cell_env_vol_si(desc, c)[0] < len(desc["envs"]) for c in range(n)):
+        return
+    try:
+        a = build_real(desc)
+        b = a.copy()
+    except Exception as e:  # noqa
+        ctx.violation("copy-raises", "building / copying a valid system raised %s" % type(e).__name__, {"desc": desc, "kind": "copies"},
+                      impl=type(e).__name__, expected="two systems")
+        return
+    objs = {"a": {"sys": a, "desc": _copy.deepcopy(desc), "st": {}, "ch": {}},
+            "b (= a.copy())": {"sys": b, "desc": _copy.deepcopy(desc), "st": {}, "ch": {}}}
+    history = []
+
+    def inspect(written):
+        for name, o in objs.items():
+            d_ = o["desc"]
+            want_s = [o["st"].get(s_ * n + c_, expected_state_si(d_, s_, c_)) for s_ in range(nsp) for c_ in range(n)]
+            want_c = [o["ch"].get(s_ * n + c_, expected_chem(d_, s_, c_)) for s_ in range(nsp) for c_ in range(n)]
+            got_s = state_si(o["sys"])
+            got_c = [int(v) for v in o["sys"].chemostats]
+            case = {"desc": desc, "kind": "copies", "history": list(history)}
+            if got_c != want_c:
+                ctx.violation("copy:chemostats", "after %r the chemostat map of system %s is %r, expected %r (%s)"
+                              % (history[-1] if history else "copy()", name, got_c, want_c,
+                                 "the write was made on the other object" if name != written else "the written object itself"),
+                              case, impl={"system": name, "chemostats": got_c}, expected=want_c)
+                return False
+            if len(got_s) != len(want_s) or not all((close(g, w_, rel=1e-9) if w_ != 0 else g == 0) for g, w_ in zip(got_s, want_s)):
+                ctx.violation("copy:state", "after %r the state of system %s is not what its own history gives (%s)"
+                              % (history[-1] if history else "copy()", name,
+                                 "the write was made on the other object" if name != written else "the written object itself"),
+                              case, impl={"system": name, "state_si": [float(v) for v in got_s]}, expected=[float(v) for v in want_s])
+                return False
+        return True
+    ctx.case(("copies", idx), nontrivial=True)
+    ctx.count("copy_histories")
+    if not inspect(None):
+        return
+    for step in range(6):
+        name = rng.choice(sorted(objs))
+        o = objs[name]
+        s_, c_ = rng.randrange(nsp), rng.randrange(n)
+        flat = s_ * n + c_
+        what = rng.choice(["set_chem", "set_chem", "set_state", "edit_density", "edit_chstt"])
+        try:
+            if what == "set_chem":
+                cur = o["ch"].get(flat, expected_chem(o["desc"], s_, c_))
+                o["sys"].set_chemostat(s_, c_, 1 - cur)
+                o["ch"][flat] = 1 - cur
+                history.append([name, "set_chemostat", s_, c_, 1 - cur])
+            elif what == "set_state":
+                q = gen_quantity(rng, desc["sys"], QTYD)
+                o["sys"].set_state(s_, c_, q_real(q, QTYD))
+                o["st"][flat] = q["si"]
+                history.append([name, "set_state", s_, c_, q.get("text", q["v"])])
+            elif what == "edit_density":
+                spd = o["desc"]["species"][s_]
+                newd = gen_envval(rng, desc["envs"], lambda: gen_quantity(rng, spd["sys"], DENS))
+                o["sys"].network.species[s_].density = envval_real(newd, DENS)
+                o["sys"].set_default_state()
+                spd["density"] = newd
+                o["st"].clear()
+                history.append([name, "species[%d].density = ...; set_default_state()" % s_])
+            else:
+                newc = gen_envval(rng, desc["envs"], lambda: rng.random() < 0.5, comma=False)
+                o["sys"].network.species[s_].chstt = envval_real(newc, None)
+                o["sys"].set_default_chemostats()
+                o["desc"]["species"][s_]["chstt"] = newc
+                o["ch"].clear()
+                history.append([name, "species[%d].chstt = ...; set_default_chemostats()" % s_])
+        except Exception as e:  # noqa
+            ctx.violation("copy-write-raises", "%s on %s raised %s" % (what, name, type(e).__name__), {"desc": desc, "kind": "copies", "history": history},
+                          impl=type(e).__name__, expected="ok")
+            return
+        ctx.count("copy_writes")
+        if not inspect(name):
+            return
+    # ---- copies of the parts: editing a copy of the network / of the space leaves the original's defaults alone
+    try:
+        net2 = a.network.copy()
+        k = rng.randrange(nsp)
+        spd = objs["a"]["desc"]["species"][k]
+        newd = gen_envval(rng, desc["envs"], lambda: gen_quantity(rng, spd["sys"], DENS))
+        net2.species[k].density = envval_real(newd, DENS)
+        net2.species[k].chstt = not bool(net2.species[k].chstt) if not isinstance(net2.species[k].chstt, dict) else {"default": True}
+        space2 = a.space.copy()
+        sd = desc["space"]
+        if sd["kind"] == "grid":
+            space2.cell_vol = space2.cell_vol * 3.0
+            space2.cell_env = [(e + 1) % len(desc["envs"]) for e in space2.cell_env]
+        else:
+            for nd in space2.nodes:
+                nd.volume = nd.volume * 3.0
+                nd.environment = (nd.environment + 1) % len(desc["envs"])
+        history.append(["network.copy() / space.copy() edited (density, chstt, volumes x3, environments shifted)"])
+        a.set_default_state()
+        a.set_default_chemostats()
+        objs["a"]["st"].clear()
+        objs["a"]["ch"].clear()
+        history.append(["a", "set_default_state(); set_default_chemostats()"])
+    except Exception as e:  # noqa
+        ctx.violation("copy-parts-raises", "copying / editing the network or the space raised %s" % type(e).__name__,
+                      {"desc": desc, "kind": "copies", "history": history}, impl=type(e).__name__, expected="ok")
+        return
+    ctx.count("copy_part_edits")
+    inspect("a")
+
+
 def json_copy(x):
     import copy
     return copy.deepcopy(x)
@@ -742,12 +931,14 @@ def run(ctx, count=None):
             compare(ctx, rec, r)
         del batch[:]
     for i in range(count):
-        desc = gen_desc(ctx.rng, malformed_env=(i % 12 == 11), force_falsy=(i % 5 == 0))
+        desc = gen_desc(ctx.rng, malformed_env=(i % 12 == 11), force_falsy=(i % 5 == 0), omit_defaults=(i % 4 == 1))
         calls, rec = run_system(ctx, desc, i)
         rec["desc0"] = desc
         batch.append(rec)
         if i % 12 != 11 and (i % 2 == 0 or ctx.tier != "quick"):
             run_sharing(ctx, desc, i)
+        if i % 12 != 11 and (i % 2 == 1 or ctx.tier != "quick"):
+            run_copies(ctx, desc, i)
         if len(batch) >= 250:
             flush()
         if ctx.time_left() < 10:
@@ -801,6 +992,8 @@ def replay(ctx, rec):
     for _ in range(3):
         if case.get("kind") == "sharing":
             run_sharing(sink, desc, 0)
+        elif case.get("kind") == "copies":
+            run_copies(sink, desc, 0)
         else:
             run_system(sink, desc, 0)
     key = rec.get("key")
